@@ -825,8 +825,56 @@ where
     }
 }
 
+/// The typed view's iterators (slice iterators over `as_slice` / `as_mut_slice`).
+fn typed_iter_script<'s, E: Elem, I>(mut it: I, script: &[u8], cx: &mut Cx<E>, clone_it: Option<&dyn Fn(&I) -> I>)
+where
+    I: DoubleEndedIterator + ExactSizeIterator,
+    I::Item: std::ops::Deref<Target = E> + 's,
+{
+    for op in script {
+        match *op {
+            ITOP_NEXT => match it.next() {
+                None => cx.ev.push(Ev::NoneRet),
+                Some(e) => cx.ev.push(val_ev(e.tag())),
+            },
+            ITOP_NEXT_BACK => match it.next_back() {
+                None => cx.ev.push(Ev::NoneRet),
+                Some(e) => cx.ev.push(val_ev(e.tag())),
+            },
+            ITOP_LEN => cx.ev.push(Ev::Len(it.len())),
+            ITOP_HINT => {
+                let (lo, hi) = it.size_hint();
+                cx.ev.push(Ev::Len(lo));
+                cx.ev.push(Ev::Len(hi.unwrap_or(usize::MAX)));
+            }
+            _ => match clone_it {
+                Some(cl) => {
+                    let mut c = cl(&it);
+                    match c.next() {
+                        None => cx.ev.push(Ev::NoneRet),
+                        Some(e) => cx.ev.push(val_ev(e.tag())),
+                    }
+                    cx.ev.push(Ev::Len(c.len()));
+                    cx.ev.push(Ev::Len(it.len()));
+                }
+                None => cx.ev.push(Ev::Len(it.len())),
+            },
+        }
+    }
+}
+
 pub fn iter_step<E: Elem, Tr: ?Sized + TrSet, M: MemB>(v: &mut AnyVec<Tr, M>, r: &RStep, cx: &mut Cx<E>) {
     match r.kind {
+        IT_TYPED => {
+            let tv = lib(|| v.downcast_ref::<E>()).expect("LIB: typed view of the real element type");
+            let it = lib(|| tv.iter());
+            typed_iter_script::<E, _>(it, &r.script, cx, Some(&|i: &std::slice::Iter<'_, E>| i.clone()))
+        }
+        IT_TYPED_MUT => {
+            let mut tv = lib(|| v.downcast_mut::<E>()).expect("LIB: typed view of the real element type");
+            let it = lib(|| tv.iter_mut());
+            typed_iter_script::<E, _>(it, &r.script, cx, None)
+        }
         IT_ITER => {
             let it = lib(|| v.iter());
             iter_script::<E, Tr, M, _, _>(it, &r.script, cx)
